@@ -177,6 +177,9 @@ def run_history(case):
         res.append(('code', 'inconclusive', dict(reason=f'generated code outside reference subset: {e}')))
     except semeq.DenoteError as e:
         res.append(('code', 'inconclusive', dict(reason=f'reference interpreter limit: {e}')))
+    except Exception as e:  # noqa  -- a limit of the comparison machinery is never a verdict about pharmpy
+        res.append(('code', 'inconclusive', dict(reason=f'comparison raised {type(e).__name__}: {e}'[:200],
+                                                 tb=traceback.format_exc()[-300:])))
     # (2) write to disk, read back, compare with the in-memory model
     tmp = tempfile.mkdtemp(prefix='c02_')
     try:
